@@ -844,7 +844,16 @@ func c16Header(c *Ctx, p *Prog) {
 	// its value
 	var walk *ssa.Function
 	var lp *loopInfo
-	for _, a := range append([]*ssa.Function{fn}, fn.AnonFuncs...) {
+	cands := append([]*ssa.Function{fn}, fn.AnonFuncs...)
+	// ... or a (recursive) function of the package that NewKeyHeader calls
+	eachInstr(fn, func(_ *ssa.BasicBlock, in ssa.Instruction) {
+		if call, ok := in.(*ssa.Call); ok {
+			if h := call.Call.StaticCallee(); h != nil && h.Pkg == fn.Pkg && h.Blocks != nil && h != fn {
+				cands = append(cands, h)
+			}
+		}
+	})
+	for _, a := range cands {
 		for _, l := range naturalLoops(a) {
 			hasGet := false
 			for b := range l.Blocks {
